@@ -85,6 +85,13 @@ fn main() {
                 2
             }
         },
+        "burst" => match stress::burst(&kv["out"], num("spans", 9000) as usize, kv.contains_key("cancelable"), kv.contains_key("cross")) {
+            Ok(c) => c,
+            Err(e) => {
+                eprintln!("harness error: {e}");
+                2
+            }
+        },
         "stress" => {
             let opts = stress::Opts {
                 cancelable: kv.contains_key("cancelable"),
